@@ -2,6 +2,7 @@
 """Confirm a sub-agent's seeded change and run the static checks against it.
 
 usage: tools/eval_seeded.py <prop> <dir-with change<k>.diff demo<k>.py note<k>.txt> [k ...]
+       tools/eval_seeded.py --refactor <prop> <dir-with refactor<k>.diff> [k ...]
 
 For each k, in a fresh scratch worktree of /repo (removed afterwards):
   1. demo passes on the clean tree
@@ -9,6 +10,9 @@ For each k, in a fresh scratch worktree of /repo (removed afterwards):
   3. demo fails with the change
   4. every check (./check <Cxx>, SA_REPO=<scratch>) is run; which properties/rules fire is recorded
 Prints one JSON line per k.
+
+With --refactor the diff is a behaviour-preserving edit: it must apply, keep the suite green, and
+every check must stay silent (any exit 1/2 is a false alarm of the machinery).
 """
 import json, os, shutil, subprocess, sys, tempfile
 
@@ -21,7 +25,51 @@ def sh(cmd, cwd=None, env=None, timeout=600):
     return p.returncode, p.stdout + p.stderr
 
 
+def run_checks(wt):
+    fired = {}
+    for i in range(1, 21):
+        p = f"C{i:02d}"
+        rc, out = sh(f"{PY} -B {VERIF}/sa/main.py {p}", cwd=VERIF, env=dict(os.environ, SA_REPO=wt, SA_NO_EVIDENCE="1"))
+        if rc != 0:
+            rules = sorted({l.split("[")[1].split("]")[0] for l in out.splitlines() if "] " in l and l.count("[R")})
+            fired[p] = {"rc": rc, "rules": rules, "first": next((l[:300] for l in out.splitlines() if "[R" in l or "ANALYSIS-ERROR" in l), "")}
+    return fired
+
+
+def refactor_main(argv):
+    prop, d = argv[0], argv[1]
+    ks = argv[2:] or ["1", "2"]
+    for k in ks:
+        diff = os.path.join(d, f"refactor{k}.diff")
+        if not os.path.exists(diff) or os.path.getsize(diff) == 0:
+            print(json.dumps({"prop": prop, "k": k, "mode": "refactor", "status": "missing"}))
+            continue
+        wt = tempfile.mkdtemp(prefix="seedchk_", dir="/tmp")
+        os.rmdir(wt)
+        res = {"prop": prop, "k": k, "mode": "refactor"}
+        try:
+            rc, out = sh(f"git -C /repo worktree add -q --detach {wt} HEAD")
+            assert rc == 0, out
+            env = dict(os.environ, PYTHONPATH=wt)
+            rc, out = sh(f"git apply --whitespace=nowarn {diff}", cwd=wt)
+            res["apply_rc"] = rc
+            if rc != 0:
+                res["apply_err"] = out[-300:]
+            else:
+                rc, out = sh(f"timeout 900 {PY} -m pytest -q -p no:cacheprovider --timeout=120 -x -n 8 2>&1 | tail -3", cwd=wt, env=env, timeout=1000)
+                res["tests"] = out.strip().splitlines()[-1][:80] if out.strip() else ""
+                res["fired"] = run_checks(wt)
+                res["changed_files"] = sh("git diff --stat | head -5", cwd=wt)[1].strip().splitlines()
+        finally:
+            sh(f"git -C /repo worktree remove --force {wt}")
+        res["valid"] = res.get("apply_rc") == 0 and "242 passed" in res.get("tests", "")
+        res["silent"] = not res.get("fired")
+        print(json.dumps(res))
+
+
 def main():
+    if sys.argv[1] == "--refactor":
+        return refactor_main(sys.argv[2:])
     prop, d = sys.argv[1], sys.argv[2]
     ks = sys.argv[3:] or ["1", "2", "3"]
     for k in ks:
@@ -50,14 +98,7 @@ def main():
                 res["tests"] = out.strip().splitlines()[-1][:80] if out.strip() else ""
                 rc, out = sh(f"timeout 300 {PY} _seeded/demo{k}.py", cwd=wt, env=env)
                 res["demo_changed_rc"] = rc
-                fired = {}
-                for i in range(1, 21):
-                    p = f"C{i:02d}"
-                    rc, out = sh(f"{PY} -B {VERIF}/sa/main.py {p}", cwd=VERIF, env=dict(os.environ, SA_REPO=wt, SA_NO_EVIDENCE="1"))
-                    if rc != 0:
-                        rules = sorted({l.split("[")[1].split("]")[0] for l in out.splitlines() if "] " in l and l.count("[R")})
-                        fired[p] = {"rc": rc, "rules": rules, "first": next((l[:200] for l in out.splitlines() if "[R" in l or "ANALYSIS-ERROR" in l), "")}
-                res["fired"] = fired
+                res["fired"] = run_checks(wt)
                 res["changed_files"] = sh("git diff --stat | head -5", cwd=wt)[1].strip().splitlines()
         finally:
             sh(f"git -C /repo worktree remove --force {wt}")
